@@ -225,6 +225,28 @@ def _r11e(chk, repo) -> None:
                 )
     chk.count("R11e.detector_reads", n)
     chk.floor("R11e.detector_reads", 1)
+    # the bytes read are judged whole: no verdict is computed on a slice (or islice) of them
+    reads = {id(r) for r in calls_in(G) if isinstance(r.func, ast.Attribute) and r.func.attr == "read"}
+    n_use = 0
+    for node in walk_local(G):
+        base = None
+        if isinstance(node, ast.Subscript) and isinstance(node.slice, ast.Slice):
+            base = node.value
+        elif isinstance(node, ast.Call) and last_attr(node) == "islice" and node.args:
+            base = node.args[0]
+        if base is None:
+            continue
+        st = cfg.stmt_of(node)
+        lv = _leaves(cfg, base, st) if isinstance(base, ast.Name) else [(base, (), st, "expr")]
+        if any(id(e) in reads for e, p_, at, k in lv):
+            n_use += 1
+            chk.fail(
+                "R11e", node,
+                f"get_encoding judges `{short(node, 50)}`, a part of the bytes it read: the verdict (e.g. 'ascii' for an ASCII head) then decides how the "
+                "whole file is decoded, and later bytes are written back as escape text by any fix",
+                detail="autodetect judges the bytes it read whole",
+            )
+    chk.count("R11e.partial_views_of_the_read_bytes", n_use)
 
 
 def _is_minus_one(e) -> bool:
@@ -843,6 +865,12 @@ VARIANTS = [
         "    stdin = sys.stdin.read()\n\n    result = linter.lint_string_wrapped(\n        stdin, fname=\"stdin\", fix=True,",
         "    stdin = sys.stdin.read()\n    text_in = stdin\n\n    result = linter.lint_string_wrapped(\n        string=text_in, fname=\"stdin\", fix=True,",
         "QUIET", None, "R11f: the text through a second local, passed by keyword",
+    ),
+    Variant(
+        "detector-gets-a-bounded-sample", "src/sqlfluff/core/helpers/file.py",
+        "    detected_encoding = chardet.detect(data).get(\"encoding\")\n",
+        "    sample = data[:8192]\n    detected_encoding = chardet.detect(sample).get(\"encoding\")\n",
+        "R11e", "get_encoding", "seeded C26-3 (same shape): the whole file is read but chardet sees the head only",
     ),
     Variant("normalisation-dropped", LINTER, "        in_str = self._normalise_newlines(in_str)\n", "", "R11c", "render_string"),
     Variant("normaliser-misses-lone-cr", LINTER, 'regex.sub(r"\\r\\n|\\r", "\\n", string)', 'regex.sub(r"\\r\\n", "\\n", string)', "R11c", "_normalise_newlines"),
